@@ -29,14 +29,36 @@ def run(report, db, tier):
 
 
 # ---------------------------------------------------------------------------
-def conn_attr_uses(db, cg, M, attr):
+def conn_attr_uses(db, cg, M, attr, aliases=False):
     """Every syntactic use `<expr typed Connection>.<attr>` in the package:
-    (fi, Attribute node)."""
+    (fi, Attribute node).  With aliases=True a local bound once, directly to
+    that attribute (`sock = self.socket`), stands for it: the binding itself
+    is dropped and every load of the local is reported as a use."""
     out = []
     for fi in db.funcs:
+        direct = []
         for n in cg.shallow(fi):
             if isinstance(n, ast.Attribute) and n.attr == attr and \
                     M.is_conn_expr(fi, n.value):
+                direct.append(n)
+        if not aliases:
+            out.extend((fi, n) for n in direct)
+            continue
+        alias = {}
+        stores = {}
+        for n in cg.shallow(fi):
+            if isinstance(n, ast.Name) and isinstance(n.ctx, ast.Store):
+                stores[n.id] = stores.get(n.id, 0) + 1
+        for n in cg.shallow(fi):
+            if isinstance(n, ast.Assign) and len(n.targets) == 1 and \
+                    isinstance(n.targets[0], ast.Name) and \
+                    n.value in direct and stores.get(n.targets[0].id) == 1:
+                alias[n.targets[0].id] = n.value
+        bound = set(id(v) for v in alias.values())
+        out.extend((fi, n) for n in direct if id(n) not in bound)
+        for n in cg.shallow(fi):
+            if isinstance(n, ast.Name) and isinstance(n.ctx, ast.Load) and \
+                    n.id in alias:
                 out.append((fi, n))
     return out
 
@@ -48,7 +70,7 @@ def r1(report, db, cg, M):
                     'consecutive sends with no call between them')
     pk = db.get_class(PACKET, 'Packet')
     wp = M.conn_method('_write_packet')
-    uses = conn_attr_uses(db, cg, M, 'socket')
+    uses = conn_attr_uses(db, cg, M, 'socket', aliases=True)
     report.floor('uses of connection.socket', len(uses), 10)
     for fi, node in uses:
         par = M.parents(fi)
@@ -56,7 +78,9 @@ def r1(report, db, cg, M):
         kind = None
         if isinstance(node.ctx, ast.Store):
             kind = 'store'
-        elif isinstance(p, ast.Compare):
+        elif isinstance(p, (ast.Compare, ast.If, ast.BoolOp, ast.UnaryOp,
+                            ast.IfExp, ast.While)) and not (
+                isinstance(p, ast.IfExp) and node is not p.test):
             kind = 'compare'
         elif isinstance(p, ast.Attribute) and isinstance(par.get(id(p)),
                                                          ast.Call) \
@@ -255,7 +279,7 @@ def r3(report, db, cg, M):
                         qattr = t.attr
     if qattr is None:
         raise AnalysisError('outgoing queue (deque) not found in Connection')
-    uses = conn_attr_uses(db, cg, M, qattr)
+    uses = conn_attr_uses(db, cg, M, qattr, aliases=True)
     report.floor('uses of the outgoing queue', len(uses), 5)
     pop = M.conn_method('_pop_packet')
     wpk = M.conn_method('write_packet')
